@@ -225,7 +225,6 @@ func concProxyTwoPeers() error {
 	return nil
 }
 
-
 // concRealMatchers: one server whose routes use the shipped protocol matchers (one matcher instance per route, shared by
 // every connection); each connection sends a valid first message of one protocol; the route that runs must be the same
 // when the connection is alone and when all run at once.
